@@ -27,11 +27,16 @@ TRUSTED = [
     'generate/_flatten/__getstate__/__setstate__), directives.py (if/for/with/choose/when/otherwise/strip), '
     'filters/i18n.py (Translator.__call__ / extract SUB handling, i18n:domain/comment/ctxt) as a hand-written Lean heap '
     'machine; tied by footprint snapshots and step-by-step comparison on generated templates',
-    'the step model covers a fragment (no py:match/attrs/interpolated attributes, no i18n:msg/choose, no includes, '
-    'identity catalogue); outside it only the footprint claim and the oracle on the real code are checked',
+    'the step model covers a fragment (py:match by one element name only, no select(), no i18n:msg/choose, no inlined includes, '
+    'no <?python ?>, identity catalogue; interpolated attribute values and py:attrs are inside); outside it only the footprint '
+    'claim and the oracle on the real code are checked',
     'thread part: interleaving model at next() granularity (theorems) and line granularity (prepare race, settrace '
     'scheduler); byte-code level preemption, the GIL and atomicity of built-in container operations are assumed',
     'pickle, CPython generators, list iterators, dict ordering: exercised, not modelled',
+    'state outside the template object and the contexts (globals dicts of eval/exec read by nested scopes: generator '
+    'expressions, lambdas, functions of <?python ?> blocks; closure state of path tests of multi-step / positional '
+    'py:match paths): not modelled (the step model answers unmodelled / other), judged by the oracle alone '
+    '(interleaved, threaded and repeated renders against the render alone)',
 ]
 ASSUMPTIONS = [
     'context data objects are not shared between renders (each render gets fresh objects built from the same spec)',
@@ -953,6 +958,37 @@ def wire_expr(node):
     return None
 
 
+def wire_attrs_spec(node):
+    """the expression of py:attrs: a dict display with string keys, a list display of (string, value) pairs, or
+    an expression of the fragment; None outside"""
+    import ast
+    if isinstance(node, ast.Expression):
+        node = node.body
+
+    def entries(pairs):
+        out = []
+        for k, v in pairs:
+            if not (isinstance(k, ast.Constant) and isinstance(k.value, str)):
+                return None
+            w = wire_expr(v)
+            if w is None:
+                return None
+            out.append([str(k.value), w])
+        return out
+    if isinstance(node, ast.Dict):
+        if any(k is None for k in node.keys):
+            return None
+        e = entries(zip(node.keys, node.values))
+        return None if e is None else [Atom('D')] + e
+    if isinstance(node, ast.List):
+        if not all(isinstance(t, ast.Tuple) and len(t.elts) == 2 for t in node.elts):
+            return None
+        e = entries((t.elts[0], t.elts[1]) for t in node.elts)
+        return None if e is None else [Atom('P')] + e
+    w = wire_expr(node)
+    return None if w is None else [Atom('X'), w]
+
+
 def _assign_name(fn):
     d = getattr(fn, '__defaults__', None)
     if d and isinstance(d[0], str):
@@ -1002,6 +1038,9 @@ def wire_dir(d, num):
             return [num, Atom({'ChooseDirective': 'choose', 'WhenDirective': 'when', 'StripDirective': 'unwrap'}[name]), e]
         if name == 'OtherwiseDirective':
             return [num, Atom('otherwise')]
+        if name == 'AttrsDirective':
+            a = d.expr is not None and wire_attrs_spec(d.expr.ast)
+            return [num, Atom('attrs'), a] if a else other
         if name == 'MatchDirective':
             import re as _re
             if _re.match(r'^[a-z]+$', d.path.source) and set(d.hints) <= {'match_once'}:
@@ -1113,6 +1152,11 @@ class Image(object):
             elif kind is START:
                 if all(isinstance(v, str) for _, v in data[1]):
                     out.append([Atom('O'), evwire.ev(ev)])
+                elif all(isinstance(v, str) or type(v) is list for _, v in data[1]):
+                    # interpolated values: each is a list of TEXT / EXPR events owned by the template -> a cell
+                    out.append([Atom('A'), evwire.qn(data[0]),
+                                [[evwire.qn(n), str(v)] if isinstance(v, str) else [evwire.qn(n), [Atom('t'), self.add_evs(v)]]
+                                 for n, v in data[1]]])
                 else:
                     out.append(Atom('U'))
             else:
@@ -1366,6 +1410,8 @@ def compare_model(cases, res, variant, stream='steps'):
                 # the case left the modelled fragment: what the real step did to shared state (a template
                 # prepared by an include inside matched content, ...) is not in the model from here on
                 res.count('model:unmodelled')
+                for ft in c.get('lazy') or ():
+                    res.count('model:unmodelled:' + ft)
                 break
             res.streams[stream] = res.streams.get(stream, 0) + 1
             if act[0] == 's' and isinstance(m, list) and len(m) > 2 and isinstance(m[2], list) and m[2] and m[2][0] == 'err':
@@ -1385,10 +1431,15 @@ def compare_model(cases, res, variant, stream='steps'):
 
 
 def gen_model_case(rng):
-    t = G.rand_template(rng, modelled=True)
+    # now and then a lazily evaluated nested scope (generator expression, lambda under map(), generator function
+    # of a code block): the step model has no counterpart and must say so (`unmodelled`, counted), the oracle
+    # judges these cases
+    lazy = rng.random() < 0.05
+    t = G.rand_template(rng, modelled=True, focus='lazy' if lazy else None)
     tspec = {'src': t['src'], 'files': t['files'], 'translator': t['translator'], 'auto_reload': True}
     k = rng.choice([1, 2, 2, 3])
-    datas = [G.rand_data(rng, True, fail_bias=0.15 if rng.random() < 0.3 else 0.0) for _ in range(k)]
+    datas = [G.healthy_data(rng) if lazy else G.rand_data(rng, True, fail_bias=0.15 if rng.random() < 0.3 else 0.0)
+             for _ in range(k)]
     acts = []
     pre = rng.random()
     if pre < 0.3:
@@ -1399,32 +1450,51 @@ def gen_model_case(rng):
         acts.append(['s', i])
         if rng.random() < 0.06:
             acts.append([rng.choice(['x', 'a', 'p', 'r'])])
-    return {'kind': 'model', 'tmpl': tspec, 'data': datas, 'actions': acts}, t['features']
+    case = {'kind': 'model', 'tmpl': tspec, 'data': datas, 'actions': acts}
+    if lazy:
+        case['lazy'] = [f for f in t['features'] if f in G.LAZY_FEATURES]
+    return case, t['features']
 
 
 # --------------------------------------------------------------------------
 # generation + shards
 
 def gen_case(rng, kind, modelled=False):
-    t = G.rand_template(rng, modelled)
+    focus = None if modelled else 'auto'
+    t = G.rand_template(rng, modelled, focus)
     while kind == 'threads' and t['files']:
         # the loader serialises loads with an RLock; the line scheduler would park a thread inside it
-        t = G.rand_template(rng, modelled)
+        t = G.rand_template(rng, modelled, focus)
+    t0 = t
     t = {'src': t['src'], 'files': t['files'], 'translator': t['translator'], 'auto_reload': t['auto_reload']}, t['features']
     tspec, feats = t
+    focus = t0['focus']
+
+    def data(**kw):
+        # with a construct in focus the renders must get to it and past it: healthy data (one data set may still fail)
+        return G.healthy_data(rng) if focus and rng.random() < 0.85 else G.rand_data(rng, modelled, **kw)
     if kind == 'seq':
         nd = rng.choice([1, 2, 2, 3])
-        datas = [G.rand_data(rng, modelled) for _ in range(nd - 1)] + [G.rand_data(rng, modelled, fail_bias=0.25)]
+        datas = [data() for _ in range(nd - 1)] + [data(fail_bias=0.25)]
         return {'kind': 'seq', 'tmpl': tspec, 'data': datas, 'ops': G.rand_ops(rng, nd, rng.choice([3, 4, 5, 6]))}, feats
     if kind == 'interleave':
         k = rng.choice([2, 2, 3])
-        datas = [G.rand_data(rng, modelled, fail_bias=0.25 if rng.random() < 0.3 else 0.0) for _ in range(k)]
-        return {'kind': 'interleave', 'tmpl': tspec, 'data': datas,
-                'schedule': G.rand_schedule(rng, k, rng.choice([10, 30, 60, 120]))}, feats
+        datas = [data(fail_bias=0.25 if rng.random() < 0.3 else 0.0) for _ in range(k)]
+        if focus:
+            sched = G.rand_schedule(rng, k, rng.choice([60, 120]), lockstep=0.5)
+        else:
+            sched = G.rand_schedule(rng, k, rng.choice([10, 30, 60, 120]))
+        return {'kind': 'interleave', 'tmpl': tspec, 'data': datas, 'schedule': sched}, feats
     if kind == 'threads':
-        datas = [G.rand_data(rng, modelled) for _ in range(2)]
-        return {'kind': 'threads', 'tmpl': tspec, 'data': datas, 'prepared': True,
-                'schedule': G.rand_schedule(rng, 2, rng.choice([20, 60, 200]))}, feats
+        datas = [data() for _ in range(2)]
+        if focus:
+            # long enough for both threads to be inside the construct at the same time (a line at a time)
+            sched = []
+            while len(sched) < 3000:
+                sched.extend([rng.randrange(2)] * rng.choice([1, 3, 10, 40, 150]))
+        else:
+            sched = G.rand_schedule(rng, 2, rng.choice([20, 60, 200]))
+        return {'kind': 'threads', 'tmpl': tspec, 'data': datas, 'prepared': True, 'schedule': sched}, feats
     raise ValueError(kind)
 
 
@@ -1520,6 +1590,9 @@ def shard(arg):
         res.count('kind:' + kind)
         for ft in feats:
             res.count('feature:' + ft)
+            if ft in G.LAZY_FEATURES or ft == 'match-stateful':
+                # the constructs whose state outlives one next() outside the context: per oracle kind
+                res.count('%s:%s' % (ft, kind))
         try:
             with watchdog(120):
                 if kind == 'seq':
@@ -1614,8 +1687,10 @@ def run(ctx):
         res.merge(r)
     race_corr(ctx.rng('race'), ctx.n(150, 3000), res)
     res.failures.extend(threads_systematic(res, ctx.n(40, 8)))
-    res.rule = ('generated markup templates (py: directives in attribute and element form, macros, match templates, '
-                'includes through a loader, i18n directives) x API operation sequences / next() schedules over 2-3 open '
+    res.rule = ('generated markup templates (py: directives in attribute and element form, macros, match templates '
+                'incl. multi-step / positional paths next to a fragment on which they fire, lazily evaluated nested scopes '
+                '(generator expressions, lambdas under map(), generator functions of code blocks) reading context variables, '
+                'interpolated attributes and py:attrs, includes through a loader, i18n directives) x API operation sequences / next() schedules over 2-3 open '
                 'renders / 2 threads under the line scheduler; model cases: templates of the modelled fragment x '
                 'schedules of open / next / extract / stream / pickle / register compared step by step with gdrv; '
                 'race cases: random schedules of 2-3 threads over the program points of Template.stream/_prepare_self '
